@@ -301,11 +301,27 @@ static CaseResult run_isolated_once(const std::vector<uint32_t> &words, long swe
   return r;
 }
 
+// In-process properties have no case process that could be killed: a watchdog
+// ends the worker when one case exceeds its time limit (the code under test
+// loops for ever, say). The in-flight record names the case; the driver reports
+// the dead worker together with this message.
+static void on_case_alarm(int)
+{
+  static const char m[] = "\nverif: HANG: the in-process case did not finish within its time limit (the code under test does not return)\n";
+  ssize_t w = write(2, m, sizeof(m) - 1);
+  (void) w;
+  _exit(88);
+}
+
 static CaseResult exec_case(const std::vector<uint32_t> &words, long sweep)
 {
   if (!g_prop.isolate) {
     Tape t(words);
-    return g_prop.run(t, sweep);
+    signal(SIGALRM, on_case_alarm);
+    alarm((unsigned) (g_prop.case_timeout_s > 0 ? g_prop.case_timeout_s : 30));
+    CaseResult r = g_prop.run(t, sweep);
+    alarm(0);
+    return r;
   }
   bool to = false;
   CaseResult r = run_isolated_once(words, sweep, to);
